@@ -8,4 +8,4 @@ Extraction "model.ml" extraction_prelude
   compute_stats admissibleb indexed stats_sb stats_sb_why per_iter_count per_iter_sb
   xq_close xq_eqb column_of all_ops tally_zero stored_counts_sb
   set_counter set_counter_old set_input_counter record_rounds constant_counter_sb no_counter_sb alloc_records_sb record_alloc_infos
-  spec_fastest spec_slowest spec_median spec_mean printed_blocks blocks_spec.
+  spec_fastest spec_slowest spec_median spec_mean printed_blocks blocks_spec column_counts_spec.
